@@ -74,7 +74,7 @@ func newVectorAccumulator(expr parser.ItemType) (vectorAccumulator, error) {
 	t := parser.ItemTypeStr[expr]
 	switch t {
 	case "sum":
-		return floats.Sum, nil
+		return sumFloats, nil
 	case "max":
 		return floats.Max, nil
 	case "min":
@@ -85,7 +85,7 @@ func newVectorAccumulator(expr parser.ItemType) (vectorAccumulator, error) {
 		}, nil
 	case "avg":
 		return func(in []float64) float64 {
-			return floats.Sum(in) / float64(len(in))
+			return sumFloats(in) / float64(len(in))
 		}, nil
 	case "group":
 		return func(in []float64) float64 {
@@ -94,4 +94,17 @@ func newVectorAccumulator(expr parser.ItemType) (vectorAccumulator, error) {
 	}
 	msg := fmt.Sprintf("unknown aggregation function %s", t)
 	return nil, errors.Wrap(parse.ErrNotSupportedExpr, msg)
+}
+
+// sumFloats seeds the sum with the first element like Prometheus does, so
+// that a vector of negative zeros sums up to a negative zero.
+func sumFloats(in []float64) float64 {
+	if len(in) == 0 {
+		return 0
+	}
+	sum := in[0]
+	for _, v := range in[1:] {
+		sum += v
+	}
+	return sum
 }
